@@ -203,3 +203,82 @@ def run(ctx):
                        "failing with the limit error" % ", ".join(limited), c.loc())
             k += 1
     ctx.floor("C33.6", "check_collection_size sites in the executor", n6, 10)
+
+    # ---- clauses 7 / 8: the guard's end of stream ------------------------------------------------------------------------
+    # Blocking operators (aggregate, ORDER BY, optional-where fixup) consume their input while the plan is being built and park a limit
+    # error in `once(Err(e))`; execute_plan wraps that in a fresh guard.  If the guard can answer None on its own before any error was
+    # delivered (for instance because "a limit was already reported somewhere"), the parked error is never yielded and the query succeeds with a
+    # truncated result.  Conversely, once the guard has yielded an error it must end the stream: the timeout check precedes the poll of the
+    # input, so an unfused guard reports the timeout again on every pull and a consumer that drains the stream never finishes.
+    ctx.rule("C33.7", "RuntimeGuardIter::next returns None only after polling its inner iterator, or on its own fuse flag (a bool field set only on paths that go on to return Some(Err))")
+    ctx.rule("C33.8", "RuntimeGuardIter is fused: every path that returns Some(Err(..)) sets the fuse flag that makes the next call return None")
+    gids = [i for i in F.bodies if "runtime_limits::RuntimeGuardIter" in i and i.endswith("::next")]
+    if not gids:
+        ctx.body("RuntimeGuardIter::next")
+    gb = ctx.body(gids[0])
+    GUARD_ADT = "nervusdb_query::executor::runtime_limits::RuntimeGuardIter"
+    inner = [c for c in gb.calls() if c.name.endswith("::next") and c.name != gids[0]]
+    ctx.floor("C33.7", "inner next() calls in the guard", len(inner), 1)
+
+    def flag_of_place(pl):
+        for p_ in pl[1]:
+            if isinstance(p_, list) and p_[0] == "f" and str(p_[3]).startswith(GUARD_ADT):
+                return p_[2]
+        return None
+
+    # fuse flags: bool fields of the guard assigned the constant true somewhere
+    sets = {}
+    for bi, blk in enumerate(gb.blocks):
+        for st in blk["s"]:
+            if st[0] == "a" and st[2][0] == "use" and st[2][1][0] == "k" and st[2][1][1].get("ty") == "bool" and st[2][1][1].get("v"):
+                f_ = flag_of_place(st[1])
+                if f_:
+                    sets.setdefault(f_, []).append(bi)
+    some_blocks = set()
+    none_blocks = []
+    err_some = []
+    for bi, blk in enumerate(gb.blocks):
+        for st in blk["s"]:
+            if st[0] == "a" and st[1][0] == 0 and not st[1][1] and st[2][0] == "agg" and st[2][2] == "core::option::Option":
+                if st[2][3] == "None":
+                    none_blocks.append((bi, st[3]))
+                else:
+                    some_blocks.add(bi)
+                    o = gb.origin(op_local(st[2][4][0])) if st[2][4] and op_local(st[2][4][0]) is not None else None
+                    if o and o[0] == "agg" and o[1][2] == "core::result::Result" and o[1][3] == "Err":
+                        err_some.append((bi, st[3]))
+    rets7 = {bi for bi, blk in enumerate(gb.blocks) if blk["t"][0] == "ret"}
+    good_flags = set()
+    for f_, blks in sets.items():
+        # every assignment of the flag goes on to a Some(..) result (never to a None)
+        if all(not any(nb in gb.reachable([x]) and not any(sb in gb.reachable([x]) and gb.dominates(sb, nb) for sb in some_blocks) for nb, _ in none_blocks) for x in blks):
+            good_flags.add(f_)
+    n7 = 0
+    from ..mirutil import switch_on as _swon
+    for bi, line in none_blocks:
+        n7 += 1
+        ok = any(gb.dominates(c.bb, bi) for c in inner)
+        how = "after polling the input" if ok else ""
+        if not ok:
+            # on the true arm of a test of a fuse flag
+            for sb in range(len(gb.blocks)):
+                sw = _swon(gb, sb)
+                if not sw or not gb.dominates(sb, bi):
+                    continue
+                o = gb.origin(sw[0])
+                pl = o[1] if o and o[0] == "place" else None
+                f_ = flag_of_place(pl) if pl else None
+                if f_ in good_flags:
+                    ok, how = True, "on the fuse flag `%s`" % f_
+        ctx.instance("C33.7", "RuntimeGuardIter::next: `None` at line %d %s" % (line, how or "WITHOUT polling the input"))
+        ctx.oblige(ok, "C33.7", "guard-ends-stream-early#%d" % (n7 - 1),
+                   "the limit guard can end the stream without asking its input and without having delivered an error itself: an error parked by a blocking "
+                   "operator (aggregate / ORDER BY built during planning) is dropped and the query returns a truncated result without the limit error", "%s:%d" % (gb.file, line))
+    ctx.floor("C33.7", "None results of the guard", n7, 1)
+    ctx.floor("C33.8", "Some(Err) results of the guard", len(err_some), 3)
+    for k, (bi, line) in enumerate(sorted(err_some)):
+        fused = any(any(gb.dominates(x, bi) or x == bi for x in blks) and f_ in good_flags for f_, blks in sets.items())
+        ctx.instance("C33.8", "RuntimeGuardIter::next: Some(Err) at line %d sets the fuse flag=%s" % (line, fused))
+        ctx.oblige(fused, "C33.8", "guard-not-fused#%d" % k,
+                   "the guard yields an error and does not mark itself finished: the timeout is checked before the input is polled, so the same error is yielded "
+                   "on every further pull and a consumer that drains the stream (query_collect, execute_mixed) never returns", "%s:%d" % (gb.file, line))
